@@ -3,6 +3,7 @@ import json
 import os
 import re
 
+from engine.mir import AnchorLost
 from engine.panics import enumerate_sites, discharge, const_return_summaries
 
 HERE = os.path.dirname(os.path.dirname(os.path.abspath(__file__)))
@@ -40,6 +41,34 @@ def load_reviewed():
     with open(os.path.join(HERE, "tables", "panic_sites.json")) as fh:
         ents = json.load(fh)
     return {e["key"]: e for e in ents}
+
+
+def foreign_rule_holds(ctx, rep, facts, name):
+    """a reviewed entry of this property's inventory leans on a rule that belongs to another property: evaluate that rule here (its
+    instances are reported under this property's name) so that the entry is void when the rule fails.  Cached per report and tree."""
+    cache = rep.__dict__.setdefault("_foreign", {})
+    key = (name, id(facts))
+    if key in cache:
+        return cache[key]
+    import importlib
+    table = {
+        "C16-CONST": ("rules.C16", "const_rules", False), "C16-MAC": ("rules.C16", "mac_rules", False),
+        "C19-TABLE": ("rules.C19", "table_rules", False), "C18-INV-YEAR": ("rules.C18", "inv_year_rules", False),
+        "C12-TS": ("rules.C12", "ts_rules", False), "C15-WRITE": ("rules.C15", "write_rules", True),
+        "C09-COUNT": ("rules.shared_count", "count_rule", False),
+    }
+    if name not in table:
+        cache[key] = True
+        return True
+    mod, fn, wants_ctx = table[name]
+    f = getattr(importlib.import_module(mod), fn)
+    try:
+        res = f(ctx, facts, rep) if wants_ctx else f(facts, rep)
+    except AnchorLost as e:
+        rep.violation(name, "%s-ANCHOR:%s" % (name, str(e)[:60]), "", "anchor of a rule that reviewed panic sites lean on is lost: %s" % e)
+        res = False
+    cache[key] = bool(res) if res is not None else True
+    return cache[key]
 
 
 def panic_rule(ctx, rep, rule, facts, root_pred, void_rules=(), only=None):
@@ -104,7 +133,10 @@ def panic_rule(ctx, rep, rule, facts, root_pred, void_rules=(), only=None):
             if ent is not None:
                 used.add(ent["key"])
                 by = ent.get("discharged_by")
-                if by and by in void_rules:
+                failed = bool(by) and by in void_rules
+                if by and not failed and not by.startswith(rep.prop):
+                    failed = not foreign_rule_holds(ctx, rep, facts, by)
+                if failed:
                     rep.violation(rule, s.key, where,
                                   "panic-capable site %s was reviewed as safe *because of* rule %s, which fails on this tree "
                                   "(reason on file: %s); reachable via %s" % (s.text, by, ent["reason"], chain))
